@@ -129,7 +129,7 @@ impl<'py> IntoPyObject<'py> for &SnmpValue<'_> {
         Ok(match self {
             SnmpValue::Bool(x) => x.into_pyobject(py)?,
             SnmpValue::Int(x) => x.into_pyobject(py)?,
-            SnmpValue::Null => todo!("None"),
+            SnmpValue::Null => py.None().into_bound(py),
             SnmpValue::OctetString(x) => x.into_pyobject(py)?,
             SnmpValue::Oid(x) => x.into_pyobject(py)?,
             SnmpValue::ObjectDescriptor(x) => x.into_pyobject(py)?,
@@ -141,8 +141,9 @@ impl<'py> IntoPyObject<'py> for &SnmpValue<'_> {
             SnmpValue::Opaque(x) => x.into_pyobject(py)?,
             SnmpValue::Counter64(x) => x.into_pyobject(py)?,
             SnmpValue::UInteger32(x) => x.into_pyobject(py)?,
-            SnmpValue::NoSuchObject | SnmpValue::NoSuchInstance => todo!("never should be passed"),
-            SnmpValue::EndOfMibView => todo!("never should be passed"),
+            SnmpValue::NoSuchObject | SnmpValue::NoSuchInstance | SnmpValue::EndOfMibView => {
+                return Err(SnmpError::NoSuchInstance);
+            }
         })
     }
 }
